@@ -45,7 +45,7 @@ def in_scope(state, op):
 def auto_out_of_scope(pre, op, post):
     """auto_batch_size_ through a nested handle: out of scope when the child's new batch size no longer extends the batch
     size of the node holding it (Props/C01.lean InScope: handleOk of the computed size)"""
-    if op[0] != "auto" or not op[1]:
+    if op[0] not in ("auto", "updatebs") or not op[1]:
         return False
     parent = O.get_at(pre, op[1][:-1])
     child = O.get_at(post, op[1])
@@ -128,7 +128,7 @@ def run_history(run, rng, hid, maxlen, steps):
             run.oracle_fail("walk", case, f"the tree cannot be walked after {op[0]}: {type(e).__name__}: {str(e)[:120]}", "unobservable:" + op[0])
             return
         if auto_out_of_scope(pre, op, post):
-            run.count("ops", "auto:out-of-scope")
+            run.count("ops", op[0] + ":out-of-scope")
             return        # the documented exclusion: the tree is legitimately incoherent from here on
         run.case(json.dumps([pre, op]))
         run.count("ops", op[0] if op[0] != "write" else "write:" + op[4]["call"])
@@ -197,7 +197,7 @@ def replay_file(run, path, quiet=False):
 def main():
     run = Run("C01")
     run.rule = ("random histories of 1..25 mutating calls (set of well/ill-shaped tensors and nested tensordicts incl. auto-created keys, batch_size and names "
-                "assignment, del_, rename_key_, create_nested, clear, pop, popitem, setdefault, refine_names, update with dict or tensordict payloads, exclude / select / flatten_keys / unflatten_keys in place, writes into existing storage by index (set_at_, __setitem__, update_at_, set_ / update_), update with a tensordict; auto_batch_size_ on the root or through a handle) issued on the root or through a nested handle, on trees of depth <= 3, batch rank 0-3 with "
+                "assignment, del_, rename_key_, create_nested, clear, pop, popitem, setdefault, refine_names, update with dict or tensordict payloads, exclude / select / flatten_keys / unflatten_keys in place, writes into existing storage by index (set_at_, __setitem__, update_at_, set_ / update_), update with a tensordict (also with update_batch_size=True: payloads derived from the destination with another batch size at the root or in one nested tensordict); auto_batch_size_ on the root or through a handle) issued on the root or through a nested handle, on trees of depth <= 3, batch rank 0-3 with "
                 "dims in {0,1,2,3}, cpu/meta/no device, named/unnamed; a case is one (pre-state, op) pair")
     run.trusted += [
         "Model/C01Coherence.lean: hand transcription of _validate_value/_set_tuple/_batch_size_setter/_check_new_batch_size/names setter/_rename_subtds/"
@@ -209,7 +209,7 @@ def main():
     run.assumptions += [
         "values of leaves are not modelled (C02/C03/C07); `.to(device)` is modelled as: result on the requested device, except out of the meta device (raises)",
         "out of scope (property text): shrinking / altering a child's batch size through a direct handle so that it no longer extends its parent's",
-        "locking, memmap/shared state are outside the model; non-tensor entries, nested lazy stacks / tensorclasses inside a tree and update(update_batch_size=True) are oracle-only (walk-ext); index writes and select in place are witnessed envelopes (the model is given the observed state and accepts it iff it lies inside a decidable envelope proved coherent)",
+        "locking, memmap/shared state are outside the model; non-tensor entries and nested lazy stacks / tensorclasses inside a tree are oracle-only (walk-ext); index writes and select in place are witnessed envelopes (the model is given the observed state and accepts it iff it lies inside a decidable envelope proved coherent)",
     ]
     run.build_and_audit(["TdVerif.Props.C01"])
     import c04_pins
